@@ -5,6 +5,7 @@ from __future__ import annotations
 import itertools
 
 from vf.combi import digits
+from vf.guard import call as gcall, too_many_hangs
 from vf.core import Job, new_result, viol
 
 LEVEL = "exploration"
@@ -95,7 +96,7 @@ def judge_kruskal(n, edges, allow_forest):
 
     nc, opt, nt = oracle(n, edges)
     try:
-        res = kruskal(n, [tuple(e) for e in edges], allow_forest=allow_forest, backend="python")
+        res = gcall(lambda: kruskal(n, [tuple(e) for e in edges], allow_forest=allow_forest, backend="python"))
     except Exception as ex:  # noqa: BLE001
         return [("raised", f"{type(ex).__name__}: {ex}")], "raised", nt
     errs = []
@@ -127,7 +128,7 @@ def judge_prim(n, edges, start, labels):
         if u != v:
             g[lab(v)].append((lab(u), w))
     try:
-        res = prim(g) if start is None else prim(g, start=lab(start))
+        res = gcall(lambda: prim(g) if start is None else prim(g, start=lab(start)))
     except Exception as ex:  # noqa: BLE001
         return [("raised", f"{type(ex).__name__}: {ex}")], "raised", nt
     errs = []
@@ -194,7 +195,7 @@ def _simple_chunk(params, lo, hi):
         ds = digits(idx, len(alpha), len(pairs))
         edges = [(pairs[i][0], pairs[i][1], alpha[d]) for i, d in enumerate(ds) if alpha[d] is not None]
         run_graph(r, n, edges, labels=labels if idx % 2 else None)
-        if len(r["violations"]) >= 40:
+        if len(r["violations"]) >= 40 or too_many_hangs():
             r["capped"] = True
             break
     return r
@@ -212,7 +213,7 @@ def _loops_chunk(params, lo, hi):
         edges = [(x, x, la[d]) for x, d in enumerate(ls) if la[d] is not None]
         edges += [(pairs[i][0], pairs[i][1], alpha[d]) for i, d in enumerate(ds) if alpha[d] is not None]
         run_graph(r, 3, edges)
-        if len(r["violations"]) >= 40:
+        if len(r["violations"]) >= 40 or too_many_hangs():
             r["capped"] = True
             break
     return r
@@ -227,7 +228,7 @@ def _dup_chunk(params, lo, hi):
         ds = digits(idx, len(opts), L)
         edges = [opts[d] for d in ds]
         run_graph(r, n, edges, kruskal_orders=False, prim_starts=(L <= 3))
-        if len(r["violations"]) >= 40:
+        if len(r["violations"]) >= 40 or too_many_hangs():
             r["capped"] = True
             break
     return r
